@@ -119,6 +119,8 @@ class PDFTextDevice(PDFDevice):
             wordspace = 0
         dxscale = 0.001 * fontsize * scaling
         if font.is_vertical():
+            # Horizontal scaling (Tz) enters horizontal displacements only:
+            # ty = (w1 - Tj / 1000) * Tfs + Tc + Tw  (PDF 32000-1, 9.4.4)
             textstate.linematrix = self.render_string_vertical(
                 seq,
                 matrix,
@@ -126,10 +128,10 @@ class PDFTextDevice(PDFDevice):
                 font,
                 fontsize,
                 scaling,
-                charspace,
-                wordspace,
+                textstate.charspace,
+                wordspace and textstate.wordspace,
                 rise,
-                dxscale,
+                0.001 * fontsize,
                 ncs,
                 graphicstate,
             )
